@@ -21,7 +21,7 @@ from pyvc.api import PyRaise, ReplayResult, unit
 from vgi_rpc.rpc._common import RpcError
 
 MANIFEST = {
-    "level_text": "Deductive proof over every path of the real stream state machines: OutputCollector accepts at most one data batch per step, refuses finish() on exchange streams and validates iff a data batch exists; _flush_collector writes every collected batch once and in order; _coerce_input_batch returns a batch with the declared schema or raises TypeError (different field set => raise); the real RpcServer._serve_stream loop, run with arbitrary user code (process emits/finishes/raises in any combination) and an arbitrary client script (data, cancel, end-of-stream, corruption at any point, unbounded length via a loop invariant), calls process exactly once per input and writes exactly its one data batch, writes a batch emitted together with finish() before the stream ends, and after a cancel input never processes again, runs on_cancel at most once, writes no error and stops reading; a declared header is one complete stream written before the output stream; the HTTP cancel branch obeys the same three cancel clauses; StreamSession / HttpStreamSession refuse tick()/exchange() with RpcError and perform no I/O after cancel()/close(), and a second cancel() is a no-op.",
+    "level_text": "Deductive proof over every path of the real stream state machines: OutputCollector accepts at most one data batch per step, refuses finish() on exchange streams and validates iff a data batch exists; _flush_collector writes every collected batch once and in order; _coerce_input_batch returns a batch with the declared schema or raises TypeError (different field set => raise); the real RpcServer._serve_stream loop, run with arbitrary user code (process emits/finishes/raises in any combination) and an arbitrary client script (data, cancel, end-of-stream, corruption at any point, unbounded length via a loop invariant), calls process exactly once per input and writes exactly its one data batch, writes a batch emitted together with finish() before the stream ends, and after a cancel input never processes again, runs on_cancel at most once, writes no error and stops reading; a declared header is one complete stream written before the output stream; the HTTP cancel branch obeys the same three cancel clauses; StreamSession / HttpStreamSession refuse tick()/exchange()/iteration with RpcError, hand out nothing and perform no I/O after cancel()/close(), and a second cancel() is a no-op.",
     "level_note": "Assumes the pyarrow IPC writer/reader contracts of lib_server.py, pyarrow RecordBatch.select/cast contracts (select returns the named columns in the given order or raises KeyError; cast returns the target schema or raises ArrowInvalid/ArrowNotImplementedError/ValueError), field-name lists of up to 3 names in the coercion unit (names arbitrary), user code raises only Exception subclasses. NOT reduced: 'the client receives exactly the batches emitted' across the transport (pyarrow IPC framing between the server's writer and the client's reader), and HTTP producer continuation (C11).",
     "technique": "contract-based deductive verification: loop invariant over ghost event counters + trace-order obligations over all paths of the real functions; VCs by pyvc, z3",
     "design_ref": "DESIGN.md §5 C10",
